@@ -312,6 +312,7 @@ inductive Token where
   deriving DecidableEq, Repr, Inhabited
 export Token (addBlack addAgg addRouteSendAllMatch addRouteSendFirstMatch addRouteConsistentHashing addRouteGrafanaNet addRouteKafkaMdm addRoutePubSub addDest addRewriter delRoute modDest modRoute str sep avgFn countFn deltaFn deriveFn lastFn maxFn minFn stdevFn sumFn num optPrefix optNotPrefix optAddr optCache optDropRaw optBlocking optSub optNotSub optRegex optNotRegex optFlush optReconn optConnBufSize optIoBufSize optSpoolBufSize optSpoolMaxBytesPerFile optSpoolSyncEvery optSpoolSyncPeriod optSpoolSleep optTLSEnabled optTLSSkipVerify optTLSClientCert optTLSClientKey optSASLEnabled optSASLMechanism optSASLUsername optSASLPassword optUnspoolSleep optPickle optSpool optTrue optFalse optBufSize optFlushMaxNum optFlushMaxWait optTimeout optSSLVerify optErrBackoffMin optErrBackoffFactor word optConcurrency optOrgId optPubSubProject optPubSubTopic optPubSubFormat optPubSubCodec optPubSubFlushMaxSize)
 def toki_EOF : Token := Token.EOF
+def toki_Error : Token := Token.Error
 /-- a scanned token: kind and text -/
 structure TokV where
   Token : Token
